@@ -438,6 +438,15 @@ impl Prop for C04 {
             let h = join((0..n).map(|i| format!("a{}", 64496 + i)).collect());
             v.push(format!("enc aspath:{}", h)); v.push(format!("enc as4path:{}", h));
         }
+        // AS paths: EVERY run length of plain ASN hops 0..=1100 (the 255-ASN segment boundary and all its
+        // multiples: value_len / compose_len must agree with the bytes written at each of them), alternating
+        // AS_PATH / AS4_PATH, and two runs separated by an AS_SET for a third of them
+        for n in 0..=1100usize {
+            let run = |k: usize, base: usize| join((0..k).map(|i| format!("a{}", 64496 + (base + i) % 1000)).collect());
+            let h = if n % 3 == 2 && n >= 2 { format!("{},s1/4:65000.65001,{}", run(n / 2, 0), run(n - n / 2, 7)) } else { run(n, 0) };
+            if h.is_empty() { continue; }
+            v.push(format!("enc {}:{}", if n % 2 == 0 { "aspath" } else { "as4path" }, h));
+        }
         // random values of every kind
         for i in 0..(1500 * scale) {
             let val = gen_value(rng, (i % 20) as u64);
